@@ -18,6 +18,12 @@ reached through `Ombott.__call__` (the real application, the real body reader, t
   R4.file_api    the upload's file object gives the same bytes through interleaved partial reads of all uploads,
                  through seek(0)/read() and through FileUpload.save(); seek(0, 2) gives the size
                  ("no byte of one part appears in another" for windows over one shared buffered body).
+  R4.file_api.seek  seek/tell/read arithmetic for the three whences stays inside the upload's own bytes: relative and
+                 from-the-end seeks land where a file of exactly these bytes would, a read behind the end gives b'', a
+                 negative absolute seek (if accepted at all) never exposes bytes of a neighbouring part.
+
+Each case also fixes which collection the handler touches first (forms / files / POST) and whether another form with
+the same field names was served by the same application just before (nothing of it may stay behind).
 
 Precondition of exactness (C13: "form text larger than the in-memory threshold is refused"): the header blocks plus the
 text values fit in max_memfile_size. Where they do not fit the statement allows refusal: then only "200 => exact" is
@@ -176,7 +182,7 @@ def gen_cases(tier, seed):
     rnd = random.Random(seed)
     bchars = "abcdefghijklmnopqrstuvwxyzABCDEFGHIJKLMNOPQRSTUVWXYZ0123456789'+_-."
     namechars = 'ab;= \\\u00e9\u20ac\U0001d11e:,/%.'
-    for _ in range(1500 if quick else 40000):
+    for _ in range(1500 if quick else 80000):
         bd = ''.join(rnd.choice(bchars) for _ in range(rnd.choice([1, 2, 5, 16, 40, 69, 70])))
         d = b'\r\n--' + bd.encode()
         snippets = [b'\r', b'\n', b'-', b'\r\n', d[:-1], d[:rnd.randrange(1, len(d))], bd.encode(), b'\x00', b'\xff', b'z']
